@@ -12,7 +12,7 @@
    session, what is stated of the final state holds after every operation. *)
 From Coq Require Import ZArith List Bool.
 Import ListNotations.
-From Urwid Require Import PyBase PyList vterm_csi_gen VTerm VT100Ref VTermRefine VTermListFacts VTermProofs.
+From Urwid Require Import PyBase PyList vterm_csi_gen VTerm VT100Ref VTermRefine VTermListFacts VTermProofs VTermParse VTermSim.
 Open Scope Z_scope.
 
 (* --- clause 1: never raises; the grid is exactly height x width (so is the view handed to the renderer,
@@ -92,11 +92,22 @@ Print Assumptions scrolled_back_view.
        fix: commits eed25b8..7c4256d).  [ambiguous] marks the points on which terminals of the VT100
        family themselves differ (LF/RI with the last-column flag set, CUU/CUD across a margin of a
        partial region); the statement stops before them. --- *)
-Fixpoint unambiguous (v : vt) (cs : list cmd) : bool :=
-  match cs with [] => true | c :: r => negb (ambiguous v c) && unambiguous (exec v c) r end.
 Definition vterm_refines_vt100_full : Prop :=
   forall w h e cs, 1 <= w -> 1 <= h -> forallb cmd_ok cs = true -> unambiguous (vt_init w h) cs = true ->
   exists s, run (init w h e) [Feed (enc_cmds cs)] = Ok s /\ agrees s (run_ref (vt_init w h) cs) = true.
+
+(* PROVED so far ([cmd_proved] lists the commands whose simulation lemma is done; it grows towards the full
+   statement): any command list over those commands, any sizes, any parameters below 2^4000 (int() refuses
+   more than 4300 digits and the emulator then falls back to the default, by design).  The proof: the parser
+   reads the decimal encoding back exactly (Proofs/VTermParse.v), each command preserves the relation R
+   between the two states (Proofs/VTermSim.v), induction over the list. *)
+Theorem vterm_refines_vt100_partial :
+  forall w h e cs, 1 <= w -> 1 <= h ->
+  forallb cmd_proved cs = true -> forallb cmd_ok cs = true -> Forall cmd_small cs ->
+  unambiguous (vt_init w h) cs = true ->
+  exists s, run (init w h e) [Feed (enc_cmds cs)] = Ok s /\ agrees s (run_ref (vt_init w h) cs) = true.
+Proof. exact refines_partial. Qed.
+Print Assumptions vterm_refines_vt100_partial.
 
 (* the formerly failing sequences, and a mixed one, now agree (closed computations; these are tests of the
    two models against each other, not a proof of the statement above) *)
